@@ -920,6 +920,8 @@ class W18:
                 else:
                     reg = R.build_registry(**kwargs)
                 self.check_registry(reg, custom, inc_l, exc_l, f"build_registry(custom={custom})")
+            elif k == "par_build":
+                self.do_par_build(op[1], op[2])
             elif k == "multidecoder":
                 from multidecoder.multidecoder import Multidecoder
 
@@ -938,6 +940,71 @@ class W18:
             else:
                 raise Harness("unknown op " + k)
         return {"violations": self.violations, "counters": self.counters, "events": self.events}
+
+    def do_par_build(self, jobs, spec):
+        """Several threads build registries at the same time (typically as the
+        first thing the process does, with no decoder module imported yet).
+        Pre-emption is allowed inside module bodies here, and per-module import
+        locks are cooperative, so one thread can observe another thread's
+        half-finished import if - and only if - the code lets it."""
+        from multidecoder import registry as R
+        from multidecoder.multidecoder import Multidecoder
+
+        def mk(job):
+            kind, custom, inc_spec, exc_spec = job
+
+            def fn():
+                inc, _ = self.arg(inc_spec)
+                exc, _ = self.arg(exc_spec)
+                kwargs = {}
+                if inc_spec is not None:
+                    kwargs["include"] = inc
+                if exc_spec is not None:
+                    kwargs["exclude"] = exc
+                if kind == "analyzers":
+                    return list(R.get_analyzers(**kwargs))
+                if kind == "multidecoder":
+                    return list(Multidecoder().decoders)
+                return list(R.build_registry(self.kwdir, **kwargs) if custom else R.build_registry(**kwargs))
+
+            return fn
+
+        cold = not any(m.startswith("multidecoder.decoders.") for m in sys.modules)
+        self.counters["par_builds"] = self.counters.get("par_builds", 0) + 1
+        self.counters["par_builds_cold"] = self.counters.get("par_builds_cold", 0) + int(cold)
+        policy = sched.make_policy(spec, len(jobs) + 1, 20000)
+        KERNEL.begin_run(policy, scope_files("all"), fault_seed=spec.get("seed", 0), engine=scope_files("engine"))
+        KERNEL.preempt_in_module = True
+        try:
+            with watchdog(PAR_LIMIT):
+                tasks = KERNEL.run_tasks([mk(j) for j in jobs], real_timeout=PAR_LIMIT)
+        except HangDetected:
+            raise Harness("stall: par_build")
+        except kernel.SimDeadlock as e:
+            self.viol("build_deadlock", f"concurrent registry builds deadlocked: {e}")
+            return
+        finally:
+            KERNEL.preempt_in_module = False
+        if KERNEL.hung:
+            raise Harness("stall: par_build never gave the baton back")
+        self.counters["par_build_switches"] = self.counters.get("par_build_switches", 0) + KERNEL.switches
+        for job, t in zip(jobs, tasks):
+            kind, custom, inc_spec, exc_spec = job
+            what = f"concurrent {kind}(custom={custom})"
+            if t.error is not None:
+                self.viol("op_raises", f"{what}: {type(t.error).__name__}: {t.error}")
+                continue
+            inc_l = inc_spec[1] if inc_spec else None
+            exc_l = exc_spec[1] if exc_spec else None
+            if kind == "analyzers":
+                kw, dec = self.split(t.result)
+                if kw:
+                    self.viol("decoder_stray", f"{what} returned non-decoder entries ({len(kw)})")
+                self.check_decoders(dec, inc_l, exc_l, what)
+            elif kind == "multidecoder":
+                self.check_registry(t.result, False, None, None, what)
+            else:
+                self.check_registry(t.result, custom, inc_l, exc_l, what)
 
     def do_cli(self):
         """CLI --keywords DIR replaces the shipped keywords: a shipped label
